@@ -37,3 +37,49 @@ def check_function(run, f, rule='R15'):
         else:
             run.violation(rule, f, c, 'unexpected random source %s for a bit / sign / coin' % name)
     return n
+
+
+def check_fresh_per_iteration(run, f, rule='R15.fresh'):
+    """A scalar draw (no size / shape argument) bound to a local before a loop and used inside that loop is ONE draw shared by
+    all iterations: the outcomes written in different iterations are then perfectly correlated instead of independent."""
+    from ..flow import walk
+    stmts = list(walk(f.node))
+    n = 0
+    for st, ctx in stmts:
+        if not (isinstance(st, ast.Assign) and len(st.targets) == 1 and isinstance(st.targets[0], ast.Name)):
+            continue
+        draws = [c for c in ast.walk(st.value) if c in draw_sites_cache(f)]
+        if not draws:
+            continue
+        scalar = all(len(c.args) <= 2 and not any(k.arg in ('size', 'shape') for k in c.keywords)
+                     and not (len(c.args) == 2 and isinstance(c.args[1], (ast.Tuple, ast.List))) for c in draws)
+        if not scalar:
+            continue
+        v = st.targets[0].id
+        n += 1
+        bad, where = None, None
+        for s2, c2 in stmts:
+            extra = [l for l in c2.loops if l not in ctx.loops]
+            if not extra or s2.lineno <= st.lineno or isinstance(s2, (ast.For, ast.While, ast.If, ast.With, ast.Try)):
+                continue
+            # redefinition of v inside that loop before the use makes the use see a fresh draw
+            if any(isinstance(x, ast.Name) and x.id == v and isinstance(x.ctx, ast.Load) for x in ast.walk(s2)):
+                redefined = any(isinstance(s3, ast.Assign) and any(isinstance(t, ast.Name) and t.id == v for t in s3.targets)
+                                and extra[0] in c3.loops and s3.lineno < s2.lineno for s3, c3 in stmts)
+                if not redefined:
+                    bad, where = s2, extra[0].lineno
+                    break
+        run.check(bad is None, rule, f, st, 'the draw bound to `%s` is made once, before the loop at line %s, and used inside it (%s): every '
+                  'iteration reuses the same random value, so the outcomes are perfectly correlated instead of independent'
+                  % (v, where, norm(bad)[:70] if bad is not None else ''))
+    return n
+
+
+_DS = {}
+
+
+def draw_sites_cache(f):
+    k = id(f.node)
+    if k not in _DS:
+        _DS[k] = draw_sites(f)
+    return _DS[k]
